@@ -552,11 +552,13 @@ class SNum:
             if want == "mod" and conc(b) == 1 and not rev:      # x % 1 on reals: fractional part
                 fl = z3.ToInt(_real(a.t))
                 return SNum(_real(a.t) - z3.ToReal(fl), "real")
-            if want == "div":
-                cb = conc(b)
-                if cb is not None and cb > 0:
-                    return SNum(z3.ToInt(_real(a.t) / _real(b.t)), "int")
-            raise Undecided("// or % on reals")
+            cb = conc(b)
+            if cb is not None and cb > 0:
+                q = z3.ToInt(_real(a.t) / _real(b.t))              # floor of the quotient (positive divisor)
+                if want == "div":
+                    return SNum(q, "int")
+                return SNum(_real(a.t) - _real(b.t) * z3.ToReal(q), "real")
+            raise Undecided("// or % on reals with a symbolic or non-positive divisor")
         cb = conc(b)
         if cb is None:
             if not in_spec():
